@@ -128,7 +128,7 @@ def main():
                     if line.startswith("[") and "]" in line and not line.startswith("[rapid]"):
                         msg = line[:200]
                         break
-                entry["checks"][c] = {"detected": rc == 1, "rc": rc, "seconds": round(time.time() - t0, 1), "first_message": msg}
+                entry["checks"][c] = {"detected": rc == 1 and "VIOLATION property=" in out, "rc": rc, "seconds": round(time.time() - t0, 1), "first_message": msg}
                 print(mid, c, "DETECTED" if rc == 1 else ("inconclusive" if rc == 2 else "MISSED"), f"suite_green={entry['suite_green']}", msg[:120], flush=True)
         finally:
             sh(["git", "-C", "/repo", "worktree", "remove", "--force", wt])
